@@ -1,32 +1,62 @@
 import GoLevel.Proofs.LocksProgress
 import GoLevel.Proofs.LocksMeasure
-/-! Liveness of the repaired configuration: all invariants hold in reachable states; fault-free runs are
+import GoLevel.Proofs.LocksNoSR
+/-! Liveness: all invariants hold in the states `Covered` by C09; fault-free runs are
 bounded by the measure and end in states where no call is pending. -/
 namespace GoLevel.Locks
 set_option linter.unusedSimpArgs false
 
-theorem init_good (n : Nat) : Good (init n) := by
-  have hz : ∀ (f : Pc → Nat), f .idle = 0 → tot f (init n).ws = 0 := fun f hf => tot_replicate_idle f n hf
-  refine ⟨init_rinv n, ?_, ?_, ?_, ?_, ?_⟩
-  · simp [PInvA, init]
-  · simp [PInvB, init, tot_replicate_idle, srW, b2n]
+/-- `SetReadOnly`'s `closeC` arm is harmless: it releases the token, or it is never executed -/
+def SrOk (cfg : Cfg) (s : St) : Prop := cfg.setReadOnlyReleasesOnClose = true ∨ NoSR s
+
+theorem step_srOk (cfg : Cfg) (s t : St) (f : Bool) (h : Step cfg f s t) (hs : SrOk cfg s) : SrOk cfg t :=
+  hs.elim Or.inl (fun hn => Or.inr (step_noSR cfg s t f h hn))
+
+theorem good_of_idle (s : St) (n : Nat) (hw : s.ws = List.replicate n .idle) (h1 : s.tok = false)
+    (h2 : s.clk = false) (h3 : s.trlk = false) (h4 : s.trOpen = false) (h5 : s.ehTok = false)
+    (h6 : s.closeTok = false) (h7 : s.mc = .idle) (h8 : s.tc = .idle) (h9 : s.eh = .noerr) : Good s := by
+  have hz : ∀ (f : Pc → Nat), f .idle = 0 → tot f s.ws = 0 := fun f hf => by rw [hw]; exact tot_replicate_idle f n hf
+  refine ⟨rinv_of_idle s n hw h1 h2 h3 h4 h5 h6 h7 h8, ?_, ?_, ?_, ?_, ?_⟩
+  · simp [PInvA, h7, h8, h9]
+  · simp [PInvB, h5, b2n]
   · refine ⟨?_, ?_, ?_⟩
-    · rw [hz clAllW rfl]; simp [init, b2n]
-    · simp [init, b2n]
-    · rw [hz clPreW rfl]; simp [init, b2n]
-  · simp [PInvD, init, b2n]
+    · rw [hz clAllW rfl]; exact Nat.zero_le _
+    · rw [h6]; exact Nat.zero_le _
+    · rw [hz clPreW rfl, h6]; simp [b2n]
+  · simp [PInvD, h4, b2n]
   · intro i b site lg hi
-    simp only [init] at hi
-    rw [List.getElem?_replicate] at hi
+    rw [hw, List.getElem?_replicate] at hi
     split at hi <;> simp at hi
 
-theorem step_good (s t : St) (f : Bool) (h : Step R f s t) (g : Good s) : Good t :=
-  ⟨step_rinv s t f h g.r, step_pinvA s t f h g.a, step_pinvB s t f h g.b, step_pinvC s t f h g.c,
-   step_pinvD s t f h g.d, step_w1 R s t f h g.w⟩
+theorem init_good (n : Nat) : Good (init n) := good_of_idle _ n rfl rfl rfl rfl rfl rfl rfl rfl rfl rfl
+theorem initNoSR_good (n : Nat) : Good (initNoSR n) :=
+  good_of_idle _ n rfl rfl rfl rfl rfl rfl rfl rfl rfl rfl
 
-theorem reachable_good (s : St) (h : Reachable R s) : Good s := by
-  obtain ⟨n, hs⟩ := h
-  exact steps_inv_of_step Good step_good _ _ hs (init_good n)
+theorem step_good (cfg : Cfg) (h3 : Fixed3 cfg) (s t : St) (f : Bool) (h : Step cfg f s t)
+    (g : Good s ∧ SrOk cfg s) : Good t ∧ SrOk cfg t :=
+  ⟨⟨step_rinv cfg h3 s t f g.2 h g.1.r, step_pinvA s t f cfg h3 g.2 h g.1.a, step_pinvB s t f cfg h3 g.2 h g.1.b,
+    step_pinvC s t f cfg h3 g.2 h g.1.c, step_pinvD s t f cfg h3 g.2 h g.1.d, step_w1 cfg s t f h g.1.w⟩,
+   step_srOk cfg s t f h g.2⟩
+
+/-- what the theorems of C09 cover: the three leaks of `Commit` / `OpenTransaction` / large-batch `Write`
+are closed, and either the `SetReadOnly`∥`Close` leak is closed too or no thread executes `SetReadOnly` -/
+def Covered (cfg : Cfg) (s : St) : Prop :=
+  Fixed3 cfg ∧ ((cfg.setReadOnlyReleasesOnClose = true ∧ Reachable cfg s) ∨ ReachableNoSR cfg s)
+
+theorem covered_good (cfg : Cfg) (s : St) (h : Covered cfg s) : Good s ∧ SrOk cfg s := by
+  obtain ⟨h3, h | h⟩ := h
+  · obtain ⟨h4, n, hs⟩ := h
+    exact steps_inv_of_step (fun s => Good s ∧ SrOk cfg s) (step_good cfg h3) _ _ hs ⟨init_good n, Or.inl h4⟩
+  · obtain ⟨n, hs⟩ := h
+    exact steps_inv_of_step (fun s => Good s ∧ SrOk cfg s) (step_good cfg h3) _ _ hs
+      ⟨initNoSR_good n, Or.inr (initNoSR_noSR n)⟩
+
+theorem covered_steps (cfg : Cfg) (s t : St) (h : Covered cfg s) (hs : Steps cfg s t) : Covered cfg t := by
+  obtain ⟨h3, h | h⟩ := h
+  · obtain ⟨h4, n, h0⟩ := h
+    exact ⟨h3, Or.inl ⟨h4, n, Steps.trans h0 hs⟩⟩
+  · obtain ⟨n, h0⟩ := h
+    exact ⟨h3, Or.inr ⟨n, Steps.trans h0 hs⟩⟩
 
 /-- fault-free runs with their length -/
 inductive StepsNFN (cfg : Cfg) : Nat → St → St → Prop
@@ -95,7 +125,7 @@ theorem close_thread_step (cfg : Cfg) (s t : St) (f : Bool) (h : Step cfg f s t)
     (try simp only [St.setDone, St.setBg]) <;> (repeat' split) <;> (try simp only [List.getElem?_set]) <;> grind [St.setBg, St.setDone, St.bg, clearW, onOk, onErr, selNext, afterSetErr, clAllW]
   | startCR _ i hi =>
     (try simp only [St.setDone, St.setBg]) <;> (repeat' split) <;> (try simp only [List.getElem?_set]) <;> grind [St.setBg, St.setDone, St.bg, clearW, onOk, onErr, selNext, afterSetErr, clAllW]
-  | startSR _ i hi =>
+  | startSR _ i hi ha =>
     (try simp only [St.setDone, St.setBg]) <;> (repeat' split) <;> (try simp only [List.getElem?_set]) <;> grind [St.setBg, St.setDone, St.bg, clearW, onOk, onErr, selNext, afterSetErr, clAllW]
   | startClose _ i hi =>
     (try simp only [St.setDone, St.setBg]) <;> (repeat' split) <;> (try simp only [List.getElem?_set]) <;> grind [St.setBg, St.setDone, St.bg, clearW, onOk, onErr, selNext, afterSetErr, clAllW]
